@@ -34,6 +34,7 @@ type Program struct {
 	strOrder  []string
 	srcLines  map[string][]string
 	contractSource string
+	contractFiles []string
 	impls     map[string][]*ssa.Function // "Iface.Method" -> in-package implementations
 	ifaceIDs  map[int]types.Type
 	fieldInvs map[string]*Clause // "T.f" -> invariant over v (trusted data-structure invariant)
@@ -47,22 +48,44 @@ type Program struct {
 func loadProgram(repo string, overlayContract string, force bool) (*Program, error) {
 	cfg := &packages.Config{Mode: packages.LoadAllSyntax, Dir: repo, BuildFlags: []string{"-tags=verif"},
 		Env: append(os.Environ(), "GOFLAGS=-mod=mod", "GOPROXY=off", "GOSUMDB=off", "GOTOOLCHAIN=local")}
-	cpath := filepath.Join(repo, "pkg/ggql/verif_contracts.go")
 	p := &Program{repo: repo, contracts: map[string]*Contract{}, specs: map[string]*SpecFn{}, lemmas: map[string]*Lemma{},
 		ifaceCons: map[string]*Contract{}, pures: map[string]bool{}, funcs: map[string]*ssa.Function{},
 		tags: map[string]int{}, comparable: map[string]bool{}, appendLemmas: map[string][]string{}, usedLemmas: map[string]bool{}, fieldInvs: map[string]*Clause{}, elemInvs: map[string]*Clause{}, typeInvs: map[string]*Clause{}, strLits: map[string]string{}, srcLines: map[string][]string{}, impls: map[string][]*ssa.Function{}}
-	p.contractSource = cpath
-	if _, err := os.Stat(cpath); err != nil || force {
-		if overlayContract == "" {
-			return nil, fmt.Errorf("contract file missing: %s", cpath)
+	// contract files: pkg/ggql/verif_contracts*.go in the tree; the mirror under <verif>/contracts is
+	// injected through an overlay for files the tree lacks (or for all of them in development mode)
+	mirrorDir := filepath.Dir(overlayContract)
+	mirrors, _ := filepath.Glob(filepath.Join(mirrorDir, "verif_contracts*.go"))
+	cfg.Overlay = map[string][]byte{}
+	var sources []string
+	seenBase := map[string]bool{}
+	for _, m := range mirrors {
+		base := filepath.Base(m)
+		seenBase[base] = true
+		inTree := filepath.Join(repo, "pkg/ggql", base)
+		if _, err := os.Stat(inTree); err != nil || force {
+			data, err := os.ReadFile(m)
+			if err != nil {
+				return nil, err
+			}
+			cfg.Overlay[inTree] = data
+			p.contractFiles = append(p.contractFiles, m)
+			sources = append(sources, m+" (overlay)")
+		} else {
+			p.contractFiles = append(p.contractFiles, inTree)
+			sources = append(sources, inTree)
 		}
-		data, err := os.ReadFile(overlayContract)
-		if err != nil {
-			return nil, err
-		}
-		cfg.Overlay = map[string][]byte{cpath: data}
-		p.contractSource = overlayContract + " (overlay; file absent from tree)"
 	}
+	inTreeFiles, _ := filepath.Glob(filepath.Join(repo, "pkg/ggql/verif_contracts*.go"))
+	for _, t := range inTreeFiles {
+		if !seenBase[filepath.Base(t)] {
+			p.contractFiles = append(p.contractFiles, t)
+			sources = append(sources, t)
+		}
+	}
+	if len(p.contractFiles) == 0 {
+		return nil, fmt.Errorf("no contract files found")
+	}
+	p.contractSource = strings.Join(sources, ", ")
 	pkgs, err := packages.Load(cfg, "./pkg/ggql")
 	if err != nil {
 		return nil, err
